@@ -548,6 +548,15 @@ func (x *Executor) havocLoc(env *Env, st, pre *State, m Expr) error {
 		if !isPtr {
 			return fmt.Errorf("modifies *%s: not a pointer", un.X.String())
 		}
+		if pv.Addr != nil {
+			// an interior pointer known symbolically: havoc exactly that location
+			nv := u.freshConst("modptr", u.sortOf(pv.Addr.Ty))
+			if wf := u.wfValue(nv, pv.Addr.Ty, 0); wf != "true" {
+				u.assume(wf)
+			}
+			x.storeAddr(st, pv.Addr, Val{T: nv, Ty: pv.Addr.Ty}, "true")
+			return nil
+		}
 		if stt, isS := pt.Elem().Underlying().(*types.Struct); isS {
 			for i := 0; i < stt.NumFields(); i++ {
 				comp, _ := u.fieldComp(pt.Elem(), stt.Field(i).Name())
